@@ -134,7 +134,9 @@ def check_spec(ctx, spec, hook):
     if removed:
         ctx.count("docs_with_removed_columns")
     ctx.count("pages_parsed", npages)
-    got_rows, unk = E.observed_data_rows(doc)
+    # (Float grouping keys - "nan", "-0.0" ... - cannot carry a sentinel tag: their heading rows are known from the spec)
+    fk = spec.get("kind", "table") == "table" and any(c["dtype"] == "floatx" for c in spec["df"]["cols"])
+    got_rows, unk = E.observed_data_rows(doc, E.extra_roles(spec) if fk else None)
     got = [t for _, t in got_rows]
     ctx.count("data_rows_compared", len(exp))
     ctx.count("cells_compared", sum(len(r) for r in exp))
@@ -173,6 +175,12 @@ def gen_random(rng):
                                             "border_top", "border_bottom", "cell_height"])
         pbn = spec["body"].get("page_by") or []
         nn = len(spec["df"]["cols"][0]["values"])
+        if (pbn or spec["body"].get("subline_by")) and rng.random() < 0.1:
+            # a grouping column of Float dtype with NaN (not equal to itself), the infinities and -0.0
+            kc = rng.choice(pbn + (spec["body"].get("subline_by") or []))
+            col = next(c for c in spec["df"]["cols"] if c["name"] == kc)
+            if col["dtype"] == "str" and E.DIVIDER not in col["values"] and "" not in col["values"]:
+                G.float_keys(rng, col)
         if pbn and not spec["body"].get("subline_by") and nn >= 3 and rng.random() < 0.15:
             # page_by values that come back after another value (A, B, A): the rows still appear in input order
             col = next(c for c in spec["df"]["cols"] if c["name"] == pbn[-1])
